@@ -1,5 +1,6 @@
 #!/bin/bash
 # usage: verify_seed.sh <worktree> <seed_dir> <crate> <demo_test_name>
+# (optional env: DEMO_RUSTFLAGS, DEMO_ARGS - e.g. '-C target-feature=+avx2,+fma' and '--features enable-avx' for AVX-only demos)
 # Confirms a seeded change independently: (1) demo passes on the clean tree, (2) with the patch the
 # workspace's existing tests still pass, (3) the demo fails with the patch. Writes <seed_dir>/verify.log.
 wt="$1"; sd="$2"; crate="$3"; name="$4"
@@ -8,11 +9,11 @@ cd "$wt" || exit 2
 git checkout -q -- . ; git clean -fdq -e seed_out -e target
 mkdir -p "$crate/tests"; cp "$sd/demo.rs" "$crate/tests/$name.rs"
 echo "== demo on clean tree" >> "$log"
-cargo test -p "$crate" --offline --test "$name" >> "$log" 2>&1; a=$?
+RUSTFLAGS="$DEMO_RUSTFLAGS" cargo test -p "$crate" --offline $DEMO_ARGS --test "$name" >> "$log" 2>&1; a=$?
 echo "exit=$a" >> "$log"
 git apply "$sd/patch.diff" || { echo "patch does not apply" >> "$log"; exit 2; }
 echo "== demo with patch" >> "$log"
-cargo test -p "$crate" --offline --test "$name" >> "$log" 2>&1; b=$?
+RUSTFLAGS="$DEMO_RUSTFLAGS" cargo test -p "$crate" --offline $DEMO_ARGS --test "$name" >> "$log" 2>&1; b=$?
 echo "exit=$b" >> "$log"
 rm -f "$crate/tests/$name.rs"
 echo "== existing suite with patch" >> "$log"
